@@ -167,7 +167,7 @@ func genC14(r *Rand, tier string) *Case {
 		case 2:
 			binary.BigEndian.PutUint16(stream[off:], 0x7FFF)
 		case 3: // first value length beyond the stream
-			binary.BigEndian.PutUint32(stream[off+2:], uint32(len(stream)+r.PickInt(1, 100, 1<<20)))
+			binary.BigEndian.PutUint32(stream[off+2:], uint32(r.PickInt(len(stream)+1, len(stream)+100, 1<<20, 0x7FFFFFFF, 0x7FFFFFFE, 0x80000000, 0xFFFFFFFE, 0xFFFF0000)))
 		case 4: // truncated last row
 			cutAt := off + 2 + r.Intn(3)
 			if cutAt < len(stream) {
